@@ -19,12 +19,12 @@ var ErrInjectedTransient = errors.New("sim: injected transient I/O error")
 // drawn up-front (so that a plan is a value that can be logged and shrunk),
 // except for per-call chunk lengths in "random" mode.
 type ReaderPlan struct {
-	Mode       int  // 0 whole buffer, 1 fixed chunk, 2 random chunk per call, 3 one byte
-	Chunk      int  // chunk size for modes 1, 2 (upper bound)
+	Mode        int  // 0 whole buffer, 1 fixed chunk, 2 random chunk per call, 3 one byte
+	Chunk       int  // chunk size for modes 1, 2 (upper bound)
 	CoalesceEOF bool // deliver (n>0, io.EOF) with the last bytes
-	Stalls     int  // total number of (0,nil) returns allowed (never two in a row)
-	ErrAt      int  // offset at which an error is injected, -1 none
-	ErrKind    int  // 0 sticky ErrInjected, 1 transient (consumes nothing, then continues), 2 io.ErrUnexpectedEOF sticky
+	Stalls      int  // total number of (0,nil) returns allowed (never two in a row)
+	ErrAt       int  // offset at which an error is injected, -1 none
+	ErrKind     int  // 0 sticky ErrInjected, 1 transient (consumes nothing, then continues), 2 io.ErrUnexpectedEOF sticky
 	ErrWithData bool // deliver the bytes before ErrAt together with the error in one call
 }
 
@@ -215,25 +215,25 @@ func (r *SimReader) Seek(off int64, whence int) (int64, error) {
 // SimWriter: a destination device that may fail after accepting k bytes.
 
 type WriterPlan struct {
-	FailAt   int  // fail once this many bytes were accepted; -1 never
-	Short    bool // deliver the failure as a short write (n<len(p), err) when possible
+	FailAt     int  // fail once this many bytes were accepted; -1 never
+	Short      bool // deliver the failure as a short write (n<len(p), err) when possible
 	ReaderFrom bool // expose io.ReaderFrom
 	Transient  bool // the failing Write fails once (accepting nothing); later calls succeed again
 }
 
 // SimWriter records everything it accepts.
 type SimWriter struct {
-	c        *Ctx
-	name     string
-	plan     WriterPlan
-	Accepted []byte
-	Calls    int
-	Bounds   []int // cumulative accepted length after each successful call (capped)
-	Failed   bool
+	c              *Ctx
+	name           string
+	plan           WriterPlan
+	Accepted       []byte
+	Calls          int
+	Bounds         []int // cumulative accepted length after each successful call (capped)
+	Failed         bool
 	CallsAfterFail int
-	UsedReadFrom bool
-	FailedOnce   bool // a transient failure was delivered
-	OnCall   func() // scheduler yield hook
+	UsedReadFrom   bool
+	FailedOnce     bool   // a transient failure was delivered
+	OnCall         func() // scheduler yield hook
 }
 
 func (c *Ctx) NewWriter(name string, plan WriterPlan) io.Writer {
